@@ -158,7 +158,12 @@ class YAMLPath:
         prefixed_segment = "{}{}".format(self.separator, removable_segment)
         path_now = self.original
 
-        if path_now.endswith(prefixed_segment):
+        bracketed_segment = "[&{}]".format(popped_segment[1])
+        if (popped_segment[0] is PathSegmentTypes.ANCHOR
+            and path_now.endswith(bracketed_segment)
+        ):
+            self.original = path_now[0:len(path_now) - len(bracketed_segment)]
+        elif path_now.endswith(prefixed_segment):
             self.original = path_now[0:len(path_now) - len(prefixed_segment)]
         elif path_now.endswith(removable_segment):
             self.original = path_now[0:len(path_now) - len(removable_segment)]
